@@ -87,11 +87,13 @@ def pruning_module(rnd, lname, tlib):
     for p in outs:
         pm[p] = 'w_' + p.lower()
         wires.append(pm[p])
-    dead = rnd.randrange(len(outs))
+    dead = 0 if rnd.random() < 0.6 else rnd.randrange(len(outs))     # (pruning looks at output pins from pin 0 up)
     sink = SINK[lname]
     spins = tlib.cells[sink][1]
     sin = [p for p, (i, o) in spins.items() if not o][0]
     insts = [(kind, 'u_m', pm), (sink, 'u_dead', {sin: pm[outs[dead]]})]
+    if rnd.random() < 0.6:
+        insts.reverse()             # the dead reader is instantiated (and so resolved and pruned) before the cell it hangs on
     used = [o for k, o in enumerate(outs) if k != dead]
     outp = [('output', 'z%d' % k, None) for k in range(len(used))]
     assigns = [('z%d' % k, pm[o]) for k, o in enumerate(used)]
